@@ -205,6 +205,7 @@ class C18(HistoryProperty):
     def gen_case(self, rng, tier):
         subst = rng.random() < 0.5
         cfg = gen.swarm_cfg(rng, off=("shape_change",) + (("cached", "derive") if subst else ()), on=("dsclass", "fapp"))
+        cfg["lib_steps"] = rng.choice([False, False, "all"])  # pipeline steps taken from labrea.functions (the library's own helpers)
         spec = gen.gen_spec(rng, cfg)
         inner = [n["id"] for n in spec["nodes"] if n["k"] in ("switch", "case", "coalesce", "bind", "map", "template", "apply", "dsclass", "fapp")]
         spec["roots"] = list(dict.fromkeys(spec["roots"] + rng.sample(inner, min(len(inner), rng.randint(0, 2)))))
